@@ -175,9 +175,11 @@ func init() {
 			{Pkg: "fasthttp", Func: "vhC12PerIP", Quick: map[string]int{"steps": 5}, Thorough: map[string]int{"steps": 7}},
 			{Pkg: "fasthttp", Func: "vhC12ConcurrencyStep"},
 			{Pkg: "fasthttp", Func: "vhC12ServeConnBalance", Quick: map[string]int{"conns": 3}, Thorough: map[string]int{"conns": 4}},
+			{Pkg: "fasthttp", Func: "vhC12ServeConnOverflow", NoNative: true},
 		},
 		Assume: []string{
 			"sequential histories only: up to `steps` open/close operations over two client IPv4 addresses with MaxConnsPerIP ∈ {1,2}, each wrapped handle closed by its owner (an immediate second Close included) and then dropped; tryAcquireConcurrency as a one-step contract from an arbitrary counter ≤ limit",
+			"overlapping ServeConn calls (vhC12ServeConnOverflow): Concurrency 1, a first connection whose handler takes 50 ms of virtual time and one or two further ServeConn calls made meanwhile: each is refused (ErrConcurrencyLimit, 503, closed), the counters return to zero and a later connection is served; schedule choices only, not re-run natively",
 			"serve-loop pairing (vhC12ServeConnBalance): up to `conns` connections served one after the other through the real ServeConn with Concurrency ∈ {1,2}: plain request, hijacking request (KeepHijackedConns on/off), malformed request, silent client; none may be rejected and the concurrency and open counters must be back at zero",
 			"concurrent interleavings of accepts and the listener path (Server.Serve, worker pool) are outside this check; fmt.Fprintf is an approximating stub (only the status line written by formatStatusLine is inspected)",
 		},
@@ -249,10 +251,12 @@ func init() {
 			{Pkg: "fasthttp", Func: "vhC07RequestBodyLimit", Quick: map[string]int{"maxLimit": 6, "maxBody": 8}, Thorough: map[string]int{"maxLimit": 8, "maxBody": 9}},
 			{Pkg: "fasthttp", Func: "vhC07HeadTooLarge"},
 			{Pkg: "fasthttp", Func: "vhC07AnnouncedTooLarge", Quick: map[string]int{"maxLimit": 4}, Thorough: map[string]int{"maxLimit": 8}},
+			{Pkg: "fasthttp", Func: "vhC07PerRequestLimit"},
 		},
 		Assume: []string{serveAssume,
 			"server-side clauses only: MaxRequestBodySize = L symbolic in [1, maxLimit], a non-streamed POST with n ≤ maxBody arbitrary body bytes, fixed-length or chunked in one or two chunks, followed by a second request; ReadBufferSize = 64 with heads of 33..153 bytes",
-			"announced sizes (vhC07AnnouncedTooLarge): Content-Length or a single chunk-size line announcing 1..40 bytes, the data arriving in later segments, limit L from MaxRequestBodySize or from a smaller per-request RequestConfig returned by HeaderReceived (server limit 64), with and without Expect: 100-continue; once the announcement exceeds L the data segment must never be read from the connection",
+			"per-request limits (vhC07PerRequestLimit): server limit 3, HeaderReceived raises it to 9 for /up only; two POSTs (/up and /p in either order, 0..11 body bytes each, fixed-length or one chunk) on one keep-alive connection: each is dispatched exactly when its body fits the limit of its own request",
+			"announced sizes (vhC07AnnouncedTooLarge): Content-Length or a single chunk-size line announcing 1..40 bytes, the data arriving in later segments, limit L from MaxRequestBodySize or from a smaller per-request RequestConfig returned by HeaderReceived (server limit 64), with and without Expect: 100-continue, with and without a multipart/form-data content type; once the announcement exceeds L the data segment must never be read from the connection",
 			"client MaxResponseBodySize, *WithLimit decompression and multipart helpers, streamed bodies, limits in the KiB/MiB range (incl. the 4 MiB default) and other ReadBufferSize values are outside this check; the error status is only required to be 4xx (fasthttp answers 400, not 413, for an oversized body)",
 		},
 	})
@@ -308,9 +312,11 @@ func init() {
 		Units: serveUnits,
 		Runs: []Run{
 			{Pkg: "fasthttp", Func: "vhC14ConnState", Quick: map[string]int{"requests": 2}, Thorough: map[string]int{"requests": 3}},
+			{Pkg: "fasthttp", Func: "vhC14ServePath", NoNative: true},
 		},
 		Assume: []string{serveAssume,
-			"connection histories: 0..`requests` requests (one per Read) from {HTTP/1.1, close, HTTP/1.0, HTTP/1.0 keep-alive, POST with body}, optional hijack by one handler, ReduceMemoryUsage on/off; malformed requests, timeouts and rejection by limits are outside this check",
+			"connection histories: 0..`requests` requests (one per Read) from {HTTP/1.1, close, HTTP/1.0, HTTP/1.0 keep-alive, POST with body}, optional hijack by one handler, ReduceMemoryUsage on/off; timeouts are outside this check",
+			"listener path (vhC14ServePath): the real Server.Serve (accept loop, worker pool) over a scripted listener on the engine's scheduler with virtual time: one connection whose handler takes 100 ms and up to three more (closing request, keep-alive request, silent) arriving meanwhile — refused when Concurrency is 1 — ended by a failing listener with the clients leaving later, or by Shutdown, before or after the slow handler finishes; every accepted connection's reported states form New (Active Idle)* [Active] (Closed|Hijacked); schedule choices only, not re-run natively",
 		},
 	})
 }
@@ -540,10 +546,10 @@ func init() {
 		ID:    "C38",
 		Units: []string{"fasthttp.(*PipelineClient).DoTimeout", "fasthttp.(*PipelineClient).DoDeadline", "fasthttp.(*PipelineClient).Do", "fasthttp.(*pipelineConnClient).DoDeadline", "fasthttp.(*pipelineConnClient).Do", "fasthttp.(*pipelineConnClient).worker", "fasthttp.(*pipelineConnClient).writer", "fasthttp.(*pipelineConnClient).reader", "fasthttp.(*pipelineConnClient).pipelineWorker", "fasthttp.(*pipelineConnClient).acquirePipelineWork"},
 		Runs: []Run{
-			{Pkg: "fasthttp", Func: "vhC38Deadlines", Quick: map[string]int{"calls": 3}, Thorough: map[string]int{"calls": 4}, NoNative: true},
+			{Pkg: "fasthttp", Func: "vhC38Deadlines", Quick: map[string]int{"calls": 5}, Thorough: map[string]int{"calls": 6}, NoNative: true},
 		},
 		Assume: []string{
-			"the real PipelineClient (worker / writer / reader goroutines, work queues, timers) on the engine's cooperative scheduler with a *virtual* clock, against a reactive in-memory server that answers, stalls (reads, never answers), answers 150 ms late, or closes its first connection after one request; `calls` concurrent calls, DoTimeout(100 ms) or Do without a deadline, MaxPendingRequests ∈ {1,2}, MaxConns 1",
+			"the real PipelineClient (worker / writer / reader goroutines, work queues, timers) on the engine's cooperative scheduler with a *virtual* clock, against a reactive in-memory server that answers, stalls (reads, never answers), answers 150 ms late, closes its first connection after one request, or takes one batch of requests without answering and fails the next write (the writer side of the connection fails while requests are unanswered; later connections answer); `calls` calls started together or 10 ms apart (5 are needed to fill reader + response queue + writer + request queue with MaxPendingRequests 1), DoTimeout(100 ms) or Do without a deadline, MaxPendingRequests ∈ {1,2}, MaxConns 1",
 			"'returns by its deadline' is decided on the virtual clock (elapsed ≤ timeout + 5 ms): what is excluded is the real scheduler's slack and wall-clock behaviour, which is what the property's 'plus scheduling slack' concedes anyway; interleavings are those of blocking operations (cooperative scheduler), choices only, not re-run natively; several connections (MaxConns > 1) and TLS are outside",
 		},
 	})
@@ -574,7 +580,7 @@ func init() {
 		},
 		Assume: []string{
 			"the oracle is net/http itself, interpreted by the engine: the same handler program is served by net/http's own Server (Serve, conn.serve, readRequest, response, chunkWriter — all interpreted from the Go release's source) and by fasthttp's Server through NewFastHTTPHandler, each over a scripted in-memory connection, and the two byte streams are read back by one client-side reader (interim 1xx responses skipped; body by Content-Length, chunked or close)",
-			"handler programs: up to `ops` operations from WriteHeader(103|201|204|304|404), Header().Add/Set/Del on X-A, X-B, Content-Type, Write of 3 bytes (one symbolic), Write of no bytes, Flush — against GET, HEAD, POST-with-body (HTTP/1.1, Connection: close) and an HTTP/1.0 GET; compared: final status, the values of the handler-set fields, a handler-set Content-Type, body. Content sniffing (http.DetectContentType) is one constant for both sides under the engine; Date / Server / default Content-Type / framing fields are not compared; trailers, Hijack, bodies beyond net/http's 2 KiB write buffer, panicking handlers and request bodies read by the handler are outside",
+			"handler programs: up to `ops` operations from WriteHeader(103|201|204|304|404), Header().Add/Set/Del on X-A, X-B, Content-Type, Write of 3 bytes (one symbolic), Write of no bytes, echo of the request body, echo of method / path / Host / protocol / a repeated request field, Flush — against GET, HEAD, POST-with-body (HTTP/1.1, Connection: close) and an HTTP/1.0 GET; compared: final status, the values of the handler-set fields, a handler-set Content-Type, body. Content sniffing (http.DetectContentType) is one constant for both sides under the engine; Date / Server / default Content-Type / framing fields are not compared; trailers, Hijack, bodies beyond net/http's 2 KiB write buffer, panicking handlers and request bodies read by the handler are outside",
 			"request half: net/http's parse (http.ReadRequest) against ConvertRequest called inside the real fasthttp serve loop, over 5 methods × 6 targets (origin-form with query, absolute-form, escaped, \"//p\") × HTTP/1.1|1.0 × 8 header sets (repeated, mixed-case, Cookie twice, User-Agent/Accept/Content-Type, Pragma, Connection) × no body | Content-Length | chunked, plus a symbolic byte in the path or query and in the Host (header or absolute target); compared: method, URL fields, RequestURI, Proto/ProtoMajor/ProtoMinor, Host, the header map over 12 names and its size, body. Requests either side refuses are not compared; ContentLength / TransferEncoding / RemoteAddr / TLS fields are outside",
 		},
 	})
@@ -590,7 +596,7 @@ func init() {
 			{Pkg: "fasthttp", Func: "vhC37Client", NoNative: true, Race: true},
 			{Pkg: "fasthttp", Func: "vhC37FS", NoNative: true, Race: true},
 			{Pkg: "fasthttp", Func: "vhC37LBClient", NoNative: true, Race: true},
-			{Pkg: "fasthttp", Func: "vhC38Deadlines", Quick: map[string]int{"calls": 3}, Thorough: map[string]int{"calls": 4}, NoNative: true, Race: true},
+			{Pkg: "fasthttp", Func: "vhC38Deadlines", Quick: map[string]int{"calls": 5}, Thorough: map[string]int{"calls": 6}, NoNative: true, Race: true},
 			{Pkg: "fasthttp", Func: "vhC41ConcurrentRotation", NoNative: true, Race: true},
 			{Pkg: "fasthttp", Func: "vhC41Dialer", Quick: map[string]int{"dials": 3}, Thorough: map[string]int{"dials": 4}, NoNative: true, Race: true},
 			{Pkg: "fasthttp", Func: "vhC15Shutdown", NoNative: true, Race: true},
